@@ -65,6 +65,14 @@ func genResult(rng *rand.Rand, idx int, tier string) Case {
 		case r < 70:
 			k := 1 + rng.Intn(3)
 			js := []interface{}{}
+			if rng.Intn(4) == 0 {
+				// a nil operand in front of the others: nils are skipped, what follows them is still merged
+				if j := rng.Intn(slots); j != i {
+					isNil[j] = true
+					ops = append(ops, map[string]interface{}{"op": "setNil", "i": j})
+					js = append(js, j)
+				}
+			}
 			for t := 0; t < k; t++ {
 				js = append(js, rng.Intn(slots))
 			}
